@@ -25,8 +25,6 @@ INTS = ("i16", "i8", "i32", "i64")
 # `fixed: ... (was class X)` = regression input that must pass); until then it is listed in the evidence, not run.
 PENDING = {
     "union-all-mixed-types": "SELECT c3 AS c0 FROM td UNION ALL SELECT c4 AS c0 FROM td   (Int32 | Int64: reported Int32, second batch Int64)",
-    "case-float64-widening": "SELECT CASE WHEN c4 > 0 THEN c4 ELSE 1.5 END AS c0 FROM td   (reported Int64, batch Float64)",
-    "date-trunc-date": "SELECT date_trunc('month', c6) AS c0 FROM td   (reported Timestamp(Microsecond), batch Date32)",
     "date-minus-date": "SELECT c6 - c6 AS c0 FROM td   (reported Float64, batch Duration(Second))",
     "greatest-least-mixed": "SELECT greatest(c3, c4) AS c0 FROM td   (reported Int32, batch Int64)",
     "decimal-arith": "SELECT CAST(c4 AS DECIMAL(10,2)) + 1 AS c0 FROM td   (reported Decimal128(38,10), batch Int64)",
@@ -83,11 +81,54 @@ def regression_group():
     return {"tables": [t], "queries": [{"q": q, "kind": "regression:i32-arith", "regression": True} for q in qs]}
 
 
+def regression_group_case_datetrunc():
+    """classes case-float64-widening (closed by fix: b37af60) and date-trunc-date (closed by fix: 99f3b78)"""
+    t = {"name": "td", "types": list(TD_TYPES), "batch_sizes": [1, 2],
+         "rows": [[1, 2, ("q", Fraction(3, 2)), 3, 4, ("q", Fraction(5, 4)), ("d", 400), "ab", True], [None] * 9,
+                  [0, 0, None, 0, -1, ("q", Fraction(7, 2)), ("d", -3), "", False]]}
+    base = relgen.tbl(0, t)
+    pos, neg = ("cmp", "CGt", col(4), lit(0)), ("cmp", "CLt", col(4), lit(0))
+    half = lit(("q", Fraction(3, 2)))
+    cases = [("case", [(pos, col(4))], half), ("case", [(pos, col(3))], col(5)), ("case", [(pos, col(2))], col(5)),
+             ("case", [(pos, col(2))], half), ("case", [(pos, col(2)), (neg, col(5))], None),
+             ("case", [(pos, col(3)), (neg, col(2))], col(5)), ("case", [(pos, col(3)), (neg, col(5))], col(4)),
+             ("case", [(pos, col(0))], col(5)), ("case", [(pos, col(5))], col(4)), ("case", [(pos, col(3))], col(4)),
+             ("case", [(pos, col(4))], col(3)), ("case", [(pos, ("arith", "AAdd", col(2), col(2)))], col(5))]
+    qs = [{"q": ("project", base, [e]), "kind": "regression:case-float64-widening", "regression": True} for e in cases]
+    w = ("project", base, [cases[0], col(4)])
+    qs += [{"q": q, "kind": "regression:case-float64-widening", "regression": True} for q in [
+        ("filter", w, ("cmp", "CGt", col(0), lit(1))), ("limit", ("sort", w, [(col(0), False, None)]), 0, 2),
+        ("agg", w, [col(1)], [("ASum", col(0)), ("AMax", col(0))]),
+        ("setop", "SUnion", True, ("project", base, [cases[0]]), ("project", base, [col(5)]))]]
+    for e in ["date_trunc('month', c6)", "date_trunc('year', c6)", "date_trunc('day', c6)", "date_trunc('week', c6)",
+              "date_trunc('month', CAST(c6 AS TIMESTAMP))", "date_trunc('day', CAST(c6 AS TIMESTAMP))"]:
+        qs.append({"q": None, "sql": f"SELECT {e} AS c0 FROM td", "kind": "regression:date-trunc-date", "regression": True})
+    qs += [{"q": None, "sql": s, "kind": "regression:date-trunc-date", "regression": True} for s in [
+        "SELECT c0 FROM (SELECT date_trunc('month', c6) AS c0 FROM td) s WHERE c0 IS NOT NULL",
+        "SELECT date_trunc('month', c6) AS c0, COUNT(*) AS c1 FROM td GROUP BY date_trunc('month', c6)",
+        "SELECT date_trunc('year', c6) AS c0 FROM td ORDER BY date_trunc('year', c6) LIMIT 2"]]
+    for x in qs:
+        if x["q"] is None and "COUNT(*) AS c1" in x["sql"]:
+            x["width"] = 2
+    return {"tables": [t], "queries": qs}
+
+
+def known_shapes_group(decided):
+    """one deterministic instance of every shape whose class known_findings.txt records as known:"""
+    t = {"name": "td", "types": list(TD_TYPES), "batch_sizes": None,
+         "rows": [[1, 2, ("q", Fraction(3, 2)), 3, 4, ("q", Fraction(5, 4)), ("d", 400), "ab", True], [None] * 9]}
+    base = relgen.tbl(0, t)
+    qs = []
+    if decided.get("union-all-mixed-types"):
+        for a, b in [(3, 4), (4, 3), (0, 3), (2, 5)]:
+            qs.append({"q": ("setop", "SUnion", True, ("project", base, [col(a)]), ("project", base, [col(b)])), "kind": "known-shape:union"})
+    for e, cls in FUNCTIONS:
+        if cls and decided.get(cls):
+            qs.append({"q": None, "sql": f"SELECT {e} AS c0 FROM td", "kind": "known-shape:" + cls, "class": cls})
+    return {"tables": [t], "queries": qs}
+
+
 # ---------------------------------------------------------------- directed statements
-def case_widens(ta, tb):
-    return ta != "f64" and tb == "f64"
-
-
 def directed(rng, tables, decided):
     """statements aimed at the typing rules, over td (all nine types)"""
     i = len(tables) - 1
@@ -103,15 +144,20 @@ def directed(rng, tables, decided):
             e = ("arith", "AAdd", e, rng.choice([col(rng.choice(num)), lit(1), lit(("q", Fraction(3, 2)))]))
         return ("project", base, [e, ("neg", col(a))]), "arith"
     if k < 0.45:
-        a = rng.choice(num)
-        bs = [j for j in num if "case-float64-widening" in decided or not case_widens(ts[a], ts[j])]
-        b = rng.choice(bs)
+        # CASE over any two of the nine types (evaluate_case casts every pair except Date32 with Int8/Int16/Float32/Float64/
+        # Boolean, which is an engine error); COALESCE over one type
+        a, b = rng.randrange(len(ts)), rng.randrange(len(ts))
+        if rng.random() < 0.6:
+            a, b = rng.choice(num), rng.choice(num)
         c = ("cmp", "CGt", col(4), lit(0))
-        same = [j for j in num if ts[j] == ts[a]]
-        e = rng.choice([("case", [(c, col(a))], col(b)), ("case", [(c, ("arith", "AAdd", col(a), col(a)))], col(a)),
-                        ("case", [(c, col(a))], None), ("case", [(c, col(a)), (("cmp", "CLt", col(4), lit(0)), col(a))], col(b)),
-                        ("coalesce", [col(a), col(rng.choice(same))]), ("coalesce", [("arith", "AMul", col(a), col(a)), col(a)])])
-        return ("project", base, [e]), "case/coalesce"
+        same = [j for j in range(len(ts)) if ts[j] == ts[a]]
+        shapes = [("case", [(c, col(a))], col(b)), ("case", [(c, col(a))], None),
+                  ("case", [(c, col(a)), (("cmp", "CLt", col(4), lit(0)), col(b))], col(rng.choice(num))),
+                  ("coalesce", [col(a), col(rng.choice(same))])]
+        if a in num:
+            shapes += [("case", [(c, ("arith", "AAdd", col(a), col(a)))], col(b)), ("coalesce", [("arith", "AMul", col(a), col(a)), col(a)]),
+                       ("case", [(c, col(a))], lit(("q", Fraction(3, 2)))), ("case", [(c, col(a))], lit(1))]
+        return ("project", base, [rng.choice(shapes)]), "case/coalesce"
     if k < 0.7:
         j = rng.randrange(len(ts))
         fn = rng.choice(["ACountStar", "ACount", "ASum", "AAvg", "AMin", "AMax", "ACountDistinct"])
@@ -150,7 +196,7 @@ FUNCTIONS = [(f"{f}({c})", None) for f in ("abs", "round", "floor", "ceil", "sqr
         "CAST(c5 AS DECIMAL(10,2))", "CAST(c6 AS TIMESTAMP)", "CAST(c4 AS SMALLINT)", "CAST(c3 AS TINYINT)", "CAST(c5 AS FLOAT)", "CAST(c5 AS REAL)",
         "TRY_CAST(c7 AS INT)", "current_date", "day_of_week(c6)", "to_date(c7)", "CAST(c3 AS SMALLINT) + CAST(c3 AS SMALLINT)",
         "CAST(c3 AS TINYINT) + CAST(c3 AS SMALLINT)", "-CAST(c3 AS SMALLINT)", "SUM(CAST(c4 AS DECIMAL(10,2)))", "SUM(c2)", "AVG(c0)", "COUNT(c1)"]] + [
-    ("date_trunc('month', c6)", "date-trunc-date"), ("date_trunc('year', c6)", "date-trunc-date"), ("date_trunc('day', c6)", "date-trunc-date"),
+    ("date_trunc('month', c6)", None), ("date_trunc('week', c6)", None), ("date_trunc('day', CAST(c6 AS TIMESTAMP))", None),
     ("c6 - c6", "date-minus-date"), ("greatest(c3, c4)", "greatest-least-mixed"), ("least(c4, c3)", "greatest-least-mixed"),
     ("CAST(c4 AS DECIMAL(10,2)) + 1", "decimal-arith"), ("CAST(c4 AS DECIMAL(10,2)) * CAST(c4 AS DECIMAL(10,2))", "decimal-arith")]
 
@@ -194,19 +240,19 @@ def evaluate(ctx, groups):
         for qi, x in enumerate(g["queries"]):
             index.append((gi, qi))
             if x["q"] is None:
-                terms.append("[[-1]; [0; 0; 1]]")
+                terms.append(f"[[-1]; [0; {x.get('width', 1)}]]")
                 continue
             qc = sqlq.to_coq(x["q"])
             terms.append(f"[schema_codes (schema_of dbs{gi} {qc}); [if known_union_mixed dbs{gi} {qc} then 1 else 0; "
-                         f"if known_case_widen dbs{gi} {qc} then 1 else 0; Z.of_nat (width {qc})]]")
+                         f"Z.of_nat (width {qc})]]")
     outs = vlib.run_harness("c30", cases, timeout=3000)
     vals = vlib.coq_eval_list(REQ, "\n".join(preludes), terms, "c30", shard=60)
     res = []
     for (gi, qi), v in zip(index, vals):
         g = groups[gi]; x = g["queries"][qi]
         o = outs[gi]["results"][qi] if "results" in outs[gi] else {"err": str(outs[gi])}
-        rep, (k_union, k_case, width) = v
-        cls = x.get("class") or ("union-all-mixed-types" if k_union else "case-float64-widening" if k_case else None)
+        rep, (k_union, width) = v
+        cls = x.get("class") or ("union-all-mixed-types" if k_union else None)
         r = {"sql": cases[gi]["queries"][qi], "kind": x["kind"], "tables": cases[gi]["tables"], "model_reported": rep,
              "class": cls, "width": width, "out": o, "regression": bool(x.get("regression"))}
         if "ok" not in o:
@@ -254,7 +300,8 @@ def evaluate(ctx, groups):
 def run(ctx):
     proved = ctx.prove()
     decided = decided_classes(ctx)
-    groups = [regression_group()] + [gen_group(ctx.rng, 12, decided) for _ in range(ctx.n(45, 1500))]
+    groups = [regression_group(), regression_group_case_datetrunc(), known_shapes_group(decided)] + \
+             [gen_group(ctx.rng, 12, decided) for _ in range(ctx.n(45, 1500))]
     res = evaluate(ctx, groups)
     ran = [r for r in res if r["status"] == "ran"]
     errs = [r for r in res if r["status"] != "ran"]
@@ -278,7 +325,7 @@ def run(ctx):
     # a regression input that no longer runs is a finding too
     for r in res:
         if r["regression"] and r["status"] != "ran":
-            ctx.violation({"kind": "regression input of the closed class i32-arith no longer runs", "case": {"sql": r["sql"], "tables": r["tables"]},
+            ctx.violation({"kind": "regression input of a closed class no longer runs: " + r["kind"], "case": {"sql": r["sql"], "tables": r["tables"]},
                            "impl_output": r["out"]}, found_input=True)
     cases = [{"sql": r["sql"], "tables": r["tables"], "kind": r["kind"], "class": r["class"]} for r in ran]
     ctx.judge(cases, [r["eq"] for r in ran], [r["spec_ok"] for r in ran],
@@ -291,19 +338,22 @@ def run(ctx):
     if not proved and not ctx.violations:
         ctx.proof_broken_violation(f"{len(res)} statements")
     return ctx.finish(
-        rule="first the regression inputs of the closed class i32-arith (Int32 op Int32 through projection, unary minus, CASE, "
-             "COALESCE, derived table, filter, ORDER BY/LIMIT, both sides of UNION ALL, join, aggregates); then per group of 12: "
+        rule="first the regression inputs of the closed classes: i32-arith (Int32 op Int32 through projection, unary minus, CASE, "
+             "COALESCE, derived table, filter, ORDER BY/LIMIT, both sides of UNION ALL, join, aggregates), case-float64-widening "
+             "(integer / Float32 THEN with a Float64 branch in every position, through filter, sort, aggregate, UNION ALL) and "
+             "date-trunc-date (DATE_TRUNC over DATE and TIMESTAMP, in a derived table, GROUP BY, ORDER BY); one instance of every "
+             "shape recorded as known:; then per group of 12: "
              "C01's random typed query trees (depth<=3, 3 tables of six column types, NULLs, random batch splits, one table "
              "sometimes Parquet, optional ORDER BY/LIMIT), every third statement directed at a typing rule over a table with all "
-             "nine modelled types (Int8..Float64 arithmetic pairs, unary minus, CASE/COALESCE branch order, each aggregate, outer "
+             "nine modelled types (Int8..Float64 arithmetic pairs, unary minus, CASE over any two of the nine types, COALESCE, each aggregate, outer "
              "joins, set operations), one scalar-function / CAST statement outside the model (reported vs returned only); "
              "non-trivial = statement that returned at least one batch; distinct by statement text. Engine errors are allowed by "
              "the property (quantifier: successfully planned statements) and excluded, counted.",
         assumptions=["nullability is ignored, as the property says",
                      "the model's value typing has one integer class (VInt) and one float class (VDbl): the width is decided by "
                      "the typing rules, not by the values",
-                     "statements outside the type model (bare NULL literal, VALUES, CASE/COALESCE mixing classes, scalar functions, "
-                     "CAST) are compared only schema-vs-batches, not with schema_of",
+                     "statements outside the type model (bare NULL literal, VALUES, CASE whose branches do not flow into the folded type "
+                     "by the Int->Float cast, scalar functions incl. DATE_TRUNC, CAST) are compared only schema-vs-batches, not with schema_of",
                      "shapes listed under shapes_awaiting_decision_not_generated violate C30 on the unchanged tree and are generated "
                      "only once known_findings.txt records their class as known: or fixed:",
                      "Flight GetSchema is not exercised here (it returns physical_plan(sql).schema(), which is compared)"])
